@@ -868,3 +868,62 @@ Section EqbSound.
       destruct (neval pow env conds a), (neval pow env' conds a'); cbn in IHa; auto; tauto.
   Qed.
 End EqbSound.
+
+Local Open Scope Q_scope.
+
+(* ------------------------------------------------------------------------------------ *)
+(* full statements used verbatim by Properties/C02.v *)
+Lemma divisor_is_max_full :
+  forall (tfl tfr : option Q) (min_u : Q),
+    (tfl = None /\ tfr = None /\ coalesce2 tfl tfr = None) \/
+    (exists l' r', coalesce2 tfl tfr = Some l' /\ coalesce2 tfr tfl = Some r' /\
+       (exists d, divisor_A tfl tfr = Some d /\ d == Qmax l' r') /\
+       (exists d, divisor_B min_u tfl tfr = Some d /\ d == Qmax (Qmax l' r') min_u) /\
+       (0 <= l' -> 0 <= r' -> 0 <= min_u ->
+        exists d, tf_divisor min_u tfl tfr = Some d /\ d == Qmax (Qmax l' r') min_u)).
+Proof.
+  intros tfl tfr min_u. destruct (coalesce2_cases tfl tfr) as [(A&B&C&_)|(l'&r'&Hl&Hr&_)]; [left; auto|].
+  right. exists l', r'. repeat split; auto.
+  - apply divisor_A_max; auto.
+  - apply divisor_B_max; auto.
+  - intros. apply tf_divisor_max; auto.
+Qed.
+
+Lemma product_of_parts_full :
+  forall pow tfs p cmps outcs cs,
+    eval_all pow tfs cmps outcs = Some cs ->
+    score pow tfs p cmps outcs = Some (score_of_cols p cs) /\
+    xq_eq (score_of_cols p cs) (xmul (prior_odds p) (xprod (all_terms cs))) /\
+    (forall terms', Permutation (all_terms cs) terms' ->
+       xq_eq (score_of_cols p cs) (xmul (prior_odds p) (xprod terms'))).
+Proof.
+  intros pow tfs p cmps outcs cs H. unfold score. rewrite H. repeat split.
+  - apply product_is_prior_times_parts.
+  - intros t' Hp. eapply xq_eq_trans; [apply product_is_prior_times_parts|].
+    apply xmul_compat; [apply xq_eq_refl|apply xprod_perm; auto].
+Qed.
+
+Lemma columns_are_level_values_full :
+  forall pow tfs ls outc c,
+    cmp_eval pow tfs ls outc = Some c ->
+    exists i l, fired outc ls = Some i /\ nth_error ls i = Some l /\
+      c_gamma c = cvv_of ls i /\ c_bf c = bf l /\
+      c_tf c = if has_tf ls then Some (tf_adj pow tfs ls l (cvv_of ls i)) else None.
+Proof.
+  intros pow tfs ls outc c H. unfold cmp_eval, gamma in H.
+  destruct (fired outc ls) as [i|] eqn:Hf; cbn in H; [|discriminate].
+  destruct (fired_some _ _ _ Hf) as (l & Hn & _). exists i, l.
+  rewrite (bf_of_gamma_fired _ _ _ Hn) in H.
+  rewrite (tf_of_gamma_fired pow tfs _ _ _ Hn) in H.
+  destruct (has_tf ls); injection H as <-; cbn; auto.
+Qed.
+
+Lemma skeleton_equality_sound_full :
+  forall pow, (forall a a' b b', a == a' -> b == b' -> pow a b == pow a' b') ->
+  forall a b, nx_eqb a b = true ->
+  forall env conds, oxq_eq (neval pow env conds a) (neval pow env conds b).
+Proof.
+  intros pow Hp a b H env conds. apply (proj1 (eqb_sound pow Hp)); auto.
+  intros c. destruct (env c) as [x|]; cbn; auto. apply xq_eq_refl.
+Qed.
+
